@@ -4,13 +4,18 @@
 // Generator: persist-topics on (3 of 4 cases) or off; steps collect / UpdateEvent / register, deregister, update
 // handler spec (publish with 1-3 private target topics, or log; match expressions) / anonymous handlers /
 // close, restore, restart (close + re-register + restore, the sequence of alert.go runAlert), delete topic.
+// Handler specs are registered, updated and removed through the service's API functions or through its HTTP API
+// (api_test.go: POST, PUT, PATCH with an RFC 6902 patch naming only the differences - remove/replace/add on /match,
+// /options, /options/<member>, /id, /kind - and DELETE); an update keeps, drops or replaces the match expression.
+// With an aggregate handler (1 case in 12) 1 collect in 4 on its topic is followed by a wait for its aggregated
+// event, so that the history spans several aggregation intervals.
 // 1 case in 16 additionally holds, somewhere in the history, the triple "register a publish handler with 2-3
 // targets; block the recording handler of one of its targets; burst of topic-buffer-length + 1..40 events":
 // Collect on the blocked target then reports a full queue, which must not keep the event from the other targets.
 //
 // Oracle: map model of the event states per topic (source and target topics) and one ledger per recording handler
-// (exactly once, FIFO, previous level), a log-file comparison per log handler, conservation of counts for the
-// aggregate handler. Where the statement leaves something open both readings are accepted (see serviceAssumptions):
+// (exactly once, FIFO, previous level), a log-file comparison per log handler; for the aggregate handler conservation
+// of counts and, per aggregated event, level / time / duration against the events it summarises (its Count). Where the statement leaves something open both readings are accepted (see serviceAssumptions):
 // OK states across close/restore, all states across a close without persistence, the previous level of the first
 // event of an id on a publish target, the events a blocked handler's full queue refuses.
 package c09
@@ -209,6 +214,10 @@ type SOp struct {
 	Nt    int    `json:"nt,omitempty"`   // reg/upd of a publish handler: number of target topics beyond the first
 	J     int    `json:"j,omitempty"`    // gate: selector of the target topic of the publish handler
 	N     int    `json:"n,omitempty"`    // burst: events beyond the queue length
+	Via   int    `json:"via,omitempty"`  // reg: 0 Service.RegisterHandlerSpec, 1 POST; dereg: 0 Service.DeregisterHandlerSpec, 1 DELETE; upd: 0 Service.UpdateHandlerSpec, 1 PUT, 2 PATCH
+	Pv    int    `json:"pv,omitempty"`   // reg/upd over HTTP: variant of the document (see specDocument, patchDocument)
+	Km    int    `json:"km,omitempty"`   // upd: 0 the new spec has the generated match expression, 1 it keeps the one of the old spec, 2 it has none
+	Fl    bool   `json:"fl,omitempty"`   // collect on the topic of the aggregate handler: wait until the aggregate handler has published everything it was handed
 	Match MExpr  `json:"match"`
 	P     int    `json:"p"`
 	M     int    `json:"m"`
@@ -240,7 +249,7 @@ const (
 )
 
 const serviceRule = "rapid: histories of collect/update/register-spec/deregister-spec/update-spec/anonymous handlers/close/restore/restart/delete over services/alert.Service (Bolt store, persist-topics on or off), " +
-	"publish (1-3 target topics) +log(+aggregate) handler specs with generated match expressions, queries after every step; 1 case in 16 blocks the handler of one target topic of a publish handler and collects more events than its queue holds; " +
+	"publish (1-3 target topics) +log(+aggregate) handler specs with generated match expressions, set through the service functions or the HTTP API (POST/PUT/PATCH/DELETE), queries after every step; 1 case in 16 blocks the handler of one target topic of a publish handler and collects more events than its queue holds; " +
 	"non-trivial = some topic held >=2 event ids with different levels in unsorted insertion order AND at least one event was matched and one rejected by a match expression; distinct by case hash"
 
 func genSOp() func(t *rapid.T) SOp {
@@ -257,6 +266,7 @@ func genSOp() func(t *rapid.T) SOp {
 			op.D = rapid.IntRange(0, len(evDurs)-1).Draw(t, "dur")
 			op.NoExt = rapid.IntRange(0, 9).Draw(t, "noext") == 9
 			op.Hs = rapid.IntRange(0, 3).Draw(t, "host")
+			op.Fl = rapid.IntRange(0, 3).Draw(t, "flush") == 3
 		case k < 51:
 			op.K = "update"
 			op.I = rapid.IntRange(0, 3).Draw(t, "id")
@@ -291,6 +301,17 @@ func genSOp() func(t *rapid.T) SOp {
 			op.H = rapid.IntRange(0, len(specIDs)-1).Draw(t, "h")
 		case "anon", "deanon", "restart":
 			op.H = rapid.IntRange(0, anonSlots-1).Draw(t, "slot")
+		}
+		// the way the request reaches the service: its API functions, or the HTTP API (client/API.md)
+		switch op.K {
+		case "reg", "dereg":
+			op.Via = rapid.SampledFrom([]int{0, 0, 1}).Draw(t, "via")
+		case "upd":
+			op.Via = rapid.SampledFrom([]int{0, 1, 2, 2}).Draw(t, "via")
+			op.Km = rapid.SampledFrom([]int{0, 0, 0, 1, 2}).Draw(t, "newmatch")
+		}
+		if op.Via != 0 && op.K != "dereg" {
+			op.Pv = rapid.IntRange(0, 3).Draw(t, "variant")
 		}
 		if op.K == "reg" || op.K == "upd" {
 			if rapid.IntRange(0, 9).Draw(t, "logkind") >= 7 {
@@ -472,6 +493,7 @@ type svcHarness struct {
 	persist  bool
 	x        *ctx
 	as       *salert.Service
+	routes   *routeCatcher
 	dir      string
 	model    map[string]*mTopic
 	src      map[string]*srcTopic
@@ -490,6 +512,7 @@ type svcHarness struct {
 	aggRec      *recorder
 	aggExpected int
 	aggMaxLevel int
+	aggEvents   []mEvent // the events handed to the aggregate handler, in the order they were collected
 }
 
 func (h *svcHarness) newLedger(name, topic string) *ledger {
@@ -700,6 +723,7 @@ func (h *svcHarness) modelCollect(st *srcTopic, ev mEvent) {
 			}
 		case "aggregate":
 			h.aggExpected++
+			h.aggEvents = append(h.aggEvents, ev)
 			if ev.level > h.aggMaxLevel {
 				h.aggMaxLevel = ev.level
 			}
@@ -947,7 +971,14 @@ func (h *svcHarness) apply(op SOp) {
 	}
 	switch op.K {
 	case "collect":
-		h.collectOne(st, op, op.I, op.L, false)
+		if h.collectOne(st, op, op.I, op.L, false) && op.Fl && h.agg != nil && name == h.aggTopic {
+			// the next event handed to the aggregate handler belongs to a later interval
+			x.label("aggregate-interval-boundary")
+			if !waitFor(func() bool { s, _ := h.aggSum(); return s >= h.aggExpected }, deliveryBound) {
+				s, _ := h.aggSum()
+				x.fail("aggregate/missing", "aggregate handler was handed %d events but after %v its aggregated events account for %d", h.aggExpected, deliveryBound, s)
+			}
+		}
 	case "burst":
 		// more events than a handler queue holds (topic-buffer-length), ids and levels varying. Only events that every
 		// handler of the topic is handed (match expressions) are collected: the harness has to see the progress of every
@@ -1022,14 +1053,14 @@ func (h *svcHarness) apply(op SOp) {
 		id := specIDs[op.H%len(specIDs)]
 		if _, dup := st.specs[id]; dup {
 			x.label("register-existing-id")
-			err := h.as.RegisterHandlerSpec(salert.HandlerSpec{ID: id, Topic: name, Kind: "publish", Options: map[string]interface{}{"topics": []string{"unused"}}})
+			err := h.registerSpec(name, &mSpec{id: id, kind: "publish", targets: []*target{{topic: "unused"}}}, op.Via, op.Pv)
 			if err == nil {
 				x.fail("spec/duplicate-id-accepted", "RegisterHandlerSpec accepted a second handler %s on topic %s", id, name)
 			}
 			return
 		}
 		sp := h.newSpec(name, id, op.Kind, op.Match, op.Nt)
-		if err := h.as.RegisterHandlerSpec(h.handlerSpec(name, sp)); err != nil {
+		if err := h.registerSpec(name, sp, op.Via, op.Pv); err != nil {
 			x.fail("spec/rejected", "RegisterHandlerSpec(%+v) returned %v", h.handlerSpec(name, sp), err)
 			return
 		}
@@ -1040,7 +1071,7 @@ func (h *svcHarness) apply(op SOp) {
 			id = ids[op.H%len(ids)]
 		}
 		sp := st.specs[id]
-		if err := h.as.DeregisterHandlerSpec(name, id); err != nil {
+		if err := h.deregisterSpec(name, id, op.Via); err != nil {
 			x.fail("spec/rejected", "DeregisterHandlerSpec(%s, %s) returned %v", name, id, err)
 			return
 		}
@@ -1059,7 +1090,6 @@ func (h *svcHarness) apply(op SOp) {
 		}
 		oldID, newID := ids[op.H%len(ids)], specIDs[op.H2%len(specIDs)]
 		old := st.specs[oldID]
-		oldHS := h.handlerSpec(name, old)
 		other := st.specs[newID]
 		if newID != oldID && other != nil && excludeUpdateOntoExistingID && !h.witness {
 			x.label("excluded:update-spec-to-existing-id")
@@ -1068,8 +1098,19 @@ func (h *svcHarness) apply(op SOp) {
 			}
 			return
 		}
-		nw := h.newSpec(name, newID, op.Kind, op.Match, op.Nt)
-		err := h.as.UpdateHandlerSpec(oldHS, h.handlerSpec(name, nw))
+		match := op.Match
+		switch op.Km % 3 {
+		case 1:
+			match = old.match
+			x.label("update-spec-keeps-match-condition")
+		case 2:
+			match = MExpr{}
+		}
+		nw := h.newSpec(name, newID, op.Kind, match, op.Nt)
+		if old.match.Op != "" && nw.match.Op == "" {
+			x.label("update-spec-drops-match-condition")
+		}
+		err := h.updateSpec(name, old, nw, op.Via, op.Pv)
 		if newID != oldID && other != nil {
 			// the new id belongs to another handler of the topic: either the update is refused and
 			// nothing changes, or it replaces both handlers by the new one
@@ -1413,7 +1454,78 @@ func (h *svcHarness) finish() {
 		}
 		if max != h.aggMaxLevel {
 			x.fail("aggregate/content", "highest level of the aggregated events is %s, of the events handed to the aggregate handler %s", lvl(max), lvl(h.aggMaxLevel))
+			return
 		}
+		h.verifyAggregates()
+	}
+}
+
+// verifyAggregates compares every aggregated event with the events it summarises. The handler is handed its events
+// in FIFO order and reports in its message how many events an aggregated event stands for ({{.Count}}), so the k-th
+// aggregated event summarises the next Count events of the sequence handed to the handler - however the ticker cut
+// the sequence (called when conservation of counts has been established).
+func (h *svcHarness) verifyAggregates() {
+	x := h.x
+	obs := h.aggRec.snapshot()
+	off, prevLevel, highest, lower := 0, 0, 0, false
+	for k, o := range obs {
+		n, _ := strconv.Atoi(o.Msg)
+		if off+n > len(h.aggEvents) {
+			x.fail("aggregate/conservation", "aggregated event #%d stands for %d events, only %d of the %d events handed to the handler are not accounted for by earlier ones", k, n, len(h.aggEvents)-off, len(h.aggEvents))
+			return
+		}
+		batch := h.aggEvents[off : off+n]
+		off += n
+		var level int
+		var latest int64
+		var dur time.Duration
+		describe := func() string {
+			var msgs []string
+			for _, ev := range batch {
+				msgs = append(msgs, fmt.Sprintf("%s[%s:%s dur=%v]", ev.msg, ev.id, lvl(ev.level), ev.dur))
+			}
+			return strings.Join(msgs, " ")
+		}
+		for _, ev := range batch {
+			if ev.level > level {
+				level = ev.level
+			}
+			if ev.time > latest {
+				latest = ev.time
+			}
+			if ev.dur > dur {
+				dur = ev.dur
+			}
+		}
+		if level < highest {
+			lower = true
+		}
+		if level > highest {
+			highest = level
+		}
+		if o.Level != level {
+			x.fail("aggregate/level", "aggregated event #%d on topic %s (count %d) has level %s, the highest level among the %d events it summarises is %s: %s\nall aggregated events: %s",
+				k, o.Topic, n, lvl(o.Level), n, lvl(level), describe(), fmtObs(obs))
+			return
+		}
+		if o.Time != latest*int64(time.Second) || o.Dur != dur {
+			x.fail("aggregate/content", "aggregated event #%d on topic %s (count %d) has time %d and duration %v, the latest time among the %d events it summarises is %d and the longest duration %v: %s",
+				k, o.Topic, n, o.Time, o.Dur, n, latest*int64(time.Second), dur, describe())
+			return
+		}
+		// statement: each event's previous level is the level of the preceding event with the same id (all aggregated events carry the id "agg")
+		if o.Prev != prevLevel || o.DataPrev != prevLevel {
+			x.fail("delivery/previous-level", "aggregated event #%d on topic %s (id %s level %s) carries previous level %s (AlertData: %s), the preceding event with that id had level %s\nall aggregated events: %s",
+				k, o.Topic, o.ID, lvl(o.Level), lvl(o.Prev), lvl(o.DataPrev), lvl(prevLevel), fmtObs(obs))
+			return
+		}
+		prevLevel = o.Level
+	}
+	if len(obs) >= 2 {
+		x.label("aggregate-intervals>=2")
+	}
+	if lower {
+		x.label("aggregate-later-interval-lower-level")
 	}
 }
 
@@ -1432,7 +1544,8 @@ func runService(c ServiceCase, cc *kit.Case) {
 		}
 		as := salert.NewService(kit.DiagService.NewAlertServiceHandler(), nil, svcBuffer) // topic-buffer-length: the smallest queue (cheap to allocate)
 		as.StorageService = store
-		as.HTTPDService = kit.HTTPDStub{}
+		routes := &routeCatcher{}
+		as.HTTPDService = routes
 		as.PersistTopics = c.Persist
 		if err := as.Open(); err != nil {
 			store.Close()
@@ -1451,7 +1564,7 @@ func runService(c ServiceCase, cc *kit.Case) {
 		if noSettle {
 			x.label("no-settle")
 		}
-		h := &svcHarness{witness: c.Witness, persist: c.Persist, x: x, as: as, dir: dir, model: map[string]*mTopic{}, src: map[string]*srcTopic{}}
+		h := &svcHarness{witness: c.Witness, persist: c.Persist, x: x, as: as, routes: routes, dir: dir, model: map[string]*mTopic{}, src: map[string]*srcTopic{}}
 		defer func() {
 			h.releaseGates()
 			if h.updatedAfterRestore {
@@ -1545,9 +1658,10 @@ func fmtSOp(op SOp) string {
 	case "update":
 		return fmt.Sprintf("update %s %s:%s", name, eventIDs[op.I%4], lvl(op.L%4))
 	case "reg":
-		return fmt.Sprintf("register spec %s/%s kind=%d targets=%d match=%q", name, specIDs[op.H%len(specIDs)], op.Kind, 1+op.Nt%3, op.Match.render())
+		return fmt.Sprintf("register spec %s/%s kind=%d targets=%d match=%q via=%s", name, specIDs[op.H%len(specIDs)], op.Kind, 1+op.Nt%3, op.Match.render(), []string{"service", "POST"}[op.Via%2])
 	case "upd":
-		return fmt.Sprintf("update spec %s/%s -> %s kind=%d targets=%d match=%q", name, specIDs[op.H%len(specIDs)], specIDs[op.H2%len(specIDs)], op.Kind, 1+op.Nt%3, op.Match.render())
+		return fmt.Sprintf("update spec %s/%s -> %s kind=%d targets=%d match=%q newmatch=%s via=%s variant=%d", name, specIDs[op.H%len(specIDs)], specIDs[op.H2%len(specIDs)], op.Kind, 1+op.Nt%3, op.Match.render(), []string{"generated", "kept", "none"}[op.Km%3],
+			[]string{"service", "PUT", "PATCH"}[op.Via%3], op.Pv)
 	case "gate":
 		return fmt.Sprintf("block the handler of target %d of publish handler %s/%s", op.J, name, specIDs[op.H%len(specIDs)])
 	case "burst":
@@ -1555,7 +1669,7 @@ func fmtSOp(op SOp) string {
 	case "restart":
 		return fmt.Sprintf("restart %s (close, anon=%v, restore)", name, op.H2 == 1)
 	case "dereg":
-		return fmt.Sprintf("deregister spec %s/%s", name, specIDs[op.H%len(specIDs)])
+		return fmt.Sprintf("deregister spec %s/%s via=%s", name, specIDs[op.H%len(specIDs)], []string{"service", "DELETE"}[op.Via%2])
 	case "anon", "deanon":
 		return fmt.Sprintf("%s %s/a%d", op.K, name, op.H%anonSlots)
 	}
@@ -1567,13 +1681,14 @@ var serviceAssumptions = []string{
 	"match functions (no user documentation in the repository; names and closures in services/alert/handlers.go): changed() = the event's level differs from the level of the preceding event with the same id on the topic (OK if none), level() = the event's level with OK<INFO<WARNING<CRITICAL, name() = measurement name, taskName() = task name, alertDuration() = the event's duration (the function called duration() in the property text was renamed, CHANGELOG #2448)",
 	"handlers are observed through private targets: a publish handler republishes to 1-3 sink topics of its own (option topics), each carrying an anonymous recording handler (RegisterAnonHandler), and every event it is handed must be collected on every one of them; a log handler appends alert.Data JSON to its own file; log is an external handler and skips events flagged NoExternal (externalHandler doc comment)",
 	"for the first event with some id on a publish target the previous level may be OK or the previous level it had on the source topic (the statement does not say which)",
-	"aggregate (wall-clock ticker, interval 20 ms): only conservation of counts, id/topic of the aggregated events and the overall highest level are checked, after a bounded wait; the aggregate handler has no match expression (the match wrapper hides its Close: it would leak its goroutine and ticker in the test process) and is never updated or removed mid-history (its Close discards what it has buffered)",
+	"aggregate (wall-clock ticker, interval 20 ms): conservation of counts, id/topic of the aggregated events and the overall highest level are checked, after a bounded wait; per aggregated event (from services/alert/handlers.go aggregateHandler.run; alert/DESIGN.md only says 'a single alert containing summary information'): the handler is handed its events in FIFO order and its message template reports how many events an aggregated event stands for ({{.Count}}), so the k-th aggregated event summarises the next Count events handed to the handler however the ticker cut the sequence; its level must be the highest level, its time the latest time and its duration the longest duration among exactly those events, and its previous level the level of the preceding aggregated event (same id, statement). 1 collect in 4 on the handler's topic is followed by a bounded wait for the aggregated event (the next event then belongs to a later interval). The aggregate handler has no match expression (the match wrapper hides its Close: it would leak its goroutine and ticker in the test process) and is never updated or removed mid-history (its Close discards what it has buffered)",
 	"CloseTopic/RestoreTopic are generated with persist-topics enabled and disabled, RestoreTopic only on a closed or still empty topic (alert.go runAlert); 'restart' is CloseTopic, RegisterAnonHandler (optional), RestoreTopic - what alert.go runAlert does with the topic of a task that is stopped and started again; across close/restore an event whose latest state is OK may be present or absent (Collect deletes an OK state from the store)",
 	"persist-topics disabled (services/alert/config.go: 'whether we persist the alert topics to BoltDB or not'): the statement does not say whether a closed topic remembers its event states, so every state from before the close may be present or absent afterwards and the previous level of the next event with that id may be that level or OK; an event for which a match expression of a handler of the topic decides differently under the two readings is not collected (label skipped:match-depends-...). What is asserted in full: the handlers defined by handler specs stay registered across close/restore and are handed every later event",
 	"slow handler: the recording handler of one target topic of a publish handler blocks from some step until the end of the history. topic-buffer-length is 1000 (alert.MinimumEventBufferSize, the smallest the service accepts): the first 1000 events republished after it blocked must reach it, later ones may have been refused by its full queue (bufHandler.Handle 'failed to deliver event'; the publish handler does not pass the refusal on) - exactly once and FIFO for the rest, compared after Close has drained the queues; every such event must still be collected on that target topic (state, level) and on all other target topics of the handler",
 	"TopicState.Collected (API field 'collected'; alert/topics.go Topic.collect) counts the events collected on a topic since it was created: used to await republication to a target whose recording handler is blocked, and at the end of the history every target topic of a publish handler must have collected exactly as many events as the handler was handed",
 	"burst (1001-1040 events on one source topic): only events that every handler of the source topic is handed (match expressions true, not NoExternal for log) are collected, and every 250 events the harness waits until all of them have been handled (recorders, log lines, aggregate sum): otherwise a handler queue of the source topic itself could overflow and Collect on the source topic would rightly report an error",
 	"known finding service/update-event-lost-after-restore-topic avoided by construction (counted): no UpdateEvent between the RestoreTopic of a closed topic and the next Collect on it while persist-topics is disabled",
+	"handler specs over HTTP (client/API.md 'Create a Handler', 'Update a Handler', 'Remove a Handler'): the routes the service registers with its HTTPDService are requested by method and path (no socket); POST/PUT carry the handler document (id, kind, options, match - 'match' left out or \"\" for no condition, as in the examples), 'PUT will replace the entire handler', 'PATCH will apply JSON patch object to the existing handler' (RFC 6902): the generated patch names only what differs between the old and the new handler (replace /id, /kind; replace /options or /options/<member>, or remove + add of the member when the kind changes; for the match condition remove or replace-by-\"\" to drop it, add or replace to set it, nothing when it stays) and uses only paths present in the listed handler document; a 2xx answer means the handler is now the requested one, any other status is treated as the error of the corresponding service function; the oracle is unchanged (deliveries follow the handler the request describes)",
 	"UpdateEvent only on topics the API reports as existing and that are not closed; UpdateHandlerSpec only for an existing handler (API precondition); updating a handler onto the id of another handler of the topic may be refused (no change) or replace both",
 	"closing or deleting a topic ends the registration of its anonymous handlers (alert.go registers them again at task start); handler specs stay registered on the topic",
 }
